@@ -48,8 +48,11 @@ REAL = {
     'inc': '#include <string.h>\nchar *cast(float *f)\n{\n    return (char *)f;\n}\n\tint tabbed(int v) { return v / 0; }\n',
     'ok': 'int fine(int v)\n{\n    return v + 1;\n}\n',
 }
-REAL_NAMES = ['arr.c', 'sp ace.c', 'unié.c', "q'uote.c", 'semi;colon.c', 'br{ace}.c', 'dir/sub file.c', 'pct%41.c',
-              'plus+eq=.c', 'at@hash#.c']
+# names of the real (analysed) files: no shell metacharacters ( ; ' & | $ ` ( ) < > ) - known finding C34
+# witness:shell-metachar-in-file-name: the addon command line is handed to sh unquoted, so the addon does not run
+# for such files (injected, not analysed, file names may contain anything)
+REAL_NAMES = ['arr.c', 'sp ace.c', 'unié.c', 'comma,dot..c', 'br{ace}.c', 'dir/sub file.c', 'pct%41.c',
+              'plus+eq=.c', 'at@hash#.c', 'tilde~caret^.c', '[br]acket.c']
 
 _real_cache = {}
 _real_lock = threading.Lock()
@@ -375,6 +378,39 @@ def real_findings(ctx, c, flavour):
     return r
 
 
+def real_findings_short(c):
+    """real findings as created when neither -v, --xml nor --template-location is given (see judge_case)"""
+    key = ('short',) + tuple(c.real_sig or ())
+    with _real_lock:
+        hit = _real_cache.get(key) if c.real_sig else None
+    if hit is not None:
+        return hit
+    sep = '<@short@>'
+    tpl = sep.join(['REC', '{file}', '{line}', '{column}', '{severity}', '{inconclusive:INC}', '{id}', '{cwe}', '{message}',
+                    '{callstack}', '{remark}', 'END'])
+    res = cppcheck(['-q', '--enable=all', '--inconclusive', '--template=' + tpl] + c.names, cwd=c.src)
+    if res.timed_out or cases.crashed(res):
+        return None
+    out = []
+    for chunk in AG.dec(res.err).split('REC' + sep)[1:]:
+        f = chunk.partition(sep + 'END')[0].split(sep)
+        if len(f) != 10:
+            return None
+        if f[5] == 'checkersReport':
+            continue
+        locs = []
+        if f[8]:
+            for ent in f[8].split(' -> '):
+                name, _, line = ent[1:-1].rpartition(':')
+                locs.append((name, int(line), 0, ''))
+            locs[-1] = (f[0], int(f[1]), int(f[2]), '')
+        out.append(AG.EF(f[5], f[3], f[7], f[7], [], locs, int(f[6]), 0, '', inconclusive=f[4] == 'INC', remark=f[9]))
+    if c.real_sig:
+        with _real_lock:
+            _real_cache[key] = out
+    return out
+
+
 def _run(c, flavour, opts, to_file, tag):
     """-> (Result, report bytes)"""
     args = list(c.base) + opts
@@ -418,8 +454,10 @@ def judge_case(ctx, c, flavour, rng, label, lossy=True, formats=('text', 'xml', 
     # ---------------- text, full-field template
     if 'text' not in formats:
         lossy = False
+    alltext = ''.join(c.names) + ''.join(ef.digest_src() for ef in c.expected)
     sep = '<@%s@>' % sha1(str(rng.random()))[:8]
-    alltext = c.script.digest_text() + ''.join(c.names)
+    while sep in alltext:
+        sep = '<@%s@>' % sha1(str(rng.random()))[:8]
     verbose = rng.random() < 0.3
     tpl = sep.join(['REC', '{file}', '{line}', '{column}', '{severity}', '{inconclusive:INC}', '{id}', '{cwe}', '{message}',
                     '{callstack}', '{remark}', 'END'])
@@ -475,14 +513,28 @@ def judge_case(ctx, c, flavour, rng, label, lossy=True, formats=('text', 'xml', 
     if lossy and usable(res, 'text-lossy'):
         txt = AG.dec(data)
         rend = collections.OrderedDict()
-        for ef in expected:
+        expected2 = expected
+        if not verbose2 and not tpl2_loc:
+            # documented in lib/check.cpp getErrorPath(): without -v / --xml / --template-location a value-flow
+            # finding is created with its last location only; the reference for the real findings of such a run is
+            # the exact read-back of the full-field template used without --template-location
+            short = real_findings_short(c)
+            if short is None:
+                ctx.count('skipped', 'short-reference-run-unusable')
+                expected2 = None
+            else:
+                expected2 = short + c.expected
+        for ef in (expected2 or []):
             r = render(ef, tpl2, tpl2_loc[0] if tpl2_loc else '', verbose2, c.src)
             rend.setdefault(r, []).append(ef)
         # checkersReport line (not a finding) is rendered by the same template: remove it by its message
         pieces = sorted(rend, key=len, reverse=True)
         ph = 'PLACEHOLDER%s' % sha1(sep)
         cr = render(AG.EF('checkersReport', 'information', ph, ph, [], []), tpl2, '', verbose2, c.src)
-        ok, leftover, unmatched = segment(txt, pieces, re.escape(cr + '\n').replace(ph, 'Active checkers: [^\n]*'))
+        if expected2 is None:
+            ok, leftover, unmatched = True, '', []
+        else:
+            ok, leftover, unmatched = segment(txt, pieces, re.escape(cr + '\n').replace(ph, 'Active checkers: [^\n]*'))
         stats['formats'] += 1
         stats['compared'] += len(pieces)
         ctx.count('findings_compared', 'text-lossy-template', len(pieces))
@@ -743,6 +795,24 @@ def _case(ctx, idx, flavour):
         for k in ('hostile_files', 'hostile_symbols', 'invalid_utf8_msgs'):
             if getattr(c.prof, k):
                 ctx.count('profiles', k)
+        for ef in c.expected:
+            t = ef.short + ef.verbose
+            names = ''.join(l[0] for l in ef.locs)
+            for cls, hit in (('message: control characters', any(ord(ch) < 0x20 or ord(ch) == 0x7f for ch in t)),
+                             ('message: invalid UTF-8 bytes', any(0xdc80 <= ord(ch) <= 0xdcff for ch in t)),
+                             ('message: non-ASCII', any(0x80 <= ord(ch) < 0xdc00 or ord(ch) > 0xdfff for ch in t)),
+                             ('message: < > & quotes', any(ch in t for ch in '<>&"\'')),
+                             ('message: { } sequences', '{' in t),
+                             ('message: ]]> or backslash', ']]>' in t or '\\' in t),
+                             ('message: longer than 1000 bytes', len(t) > 1000),
+                             ('message: verbose differs', ef.short != ef.verbose),
+                             ('symbol names', bool(ef.symbols)),
+                             ('file name: < > & quotes blanks', any(ch in names for ch in '<>&"\' ')),
+                             ('file name: control / invalid UTF-8', any(ord(ch) < 0x20 or 0xdc80 <= ord(ch) <= 0xdcff for ch in names)),
+                             ('locations: none', not ef.locs), ('locations: several', len(ef.locs) > 1),
+                             ('cwe', bool(ef.cwe)), ('hash', bool(ef.hash))):
+                if hit:
+                    ctx.count('injected_classes', cls)
         if st['injected'] >= 1 and st['formats'] >= 2 and st['compared'] >= 2:
             ctx.trivial_or(label)
         ctx.sample({'sources': c.names, 'injected_findings': st['injected'], 'real_findings': st['real'],
